@@ -43,6 +43,8 @@ def _one(args):
         except AnalysisError as e:
             return (mid, 'analysis-error', str(e)[:200], clause)
         new_v = [o for o in run.violations() if report.match_known(o, known) is None]
+        if not new_v and run.errors:
+            return (mid, 'analysis-error', run.errors[0][:200], clause)
         if preserving:
             if new_v:
                 return (mid, 'FALSE-ALARM', '%s-%s %s' % (new_v[0].prop, new_v[0].clause, new_v[0].what[:120]), clause)
